@@ -168,7 +168,8 @@ CLAIMS = {
              "unrolled with an unwinding assertion); a loop over a set-typed variable never hands None to the helper that reads it as a set "
              "(L3 unit L3setiter: precondition of __Pyx_set_iterator at the call site, None modelled as an object); the C-array route of loops over a display is taken only for a display without a repeat factor "
              "(fragment unit on _try_optimise_array_iteration: precondition of the array route at its call); optimised enumerate() / dict.items() loops split their target only into two "
-             "plain (un-starred) targets (two fragment units). Kernel: "
+             "plain (un-starred) targets (two fragment units); the counter of enumerate() is marked as a Py_ssize_t for type inference only in the "
+             "one-argument form (fragment unit on FlowControl.mark_forloop_target). Kernel: "
              "programs are the stated catalogue; inputs are universally quantified.",
         note="Trusted: dv C front end (loop-invariant rule), z3, the closed form of len(range()) (validated against CPython every run), "
              "the Div/Mod helper contracts proved under C03. Value obligations assume absence of C undefined behaviour; the overflow "
